@@ -1,6 +1,11 @@
 #!/bin/sh
-# Runs every claimed check (quick) on /repo; one summary line per property
-# (plus at most three VIOLATION lines each).
-for p in $(python3 -c "import json;print(' '.join(c['property_id'] for c in json.load(open('/verif/MANIFEST.json'))['checks']))") "$@"; do
-  /verif/bin/gvc check --property $p --tier quick 2>&1 | grep "^gvc: property\|^VIOLATION" | cut -c1-220 | awk '/^VIOLATION/{n++; if(n<=3) print; next} {print}'
-done
+# Runs every claimed check's quick command from MANIFEST.json on /repo; one summary
+# line per property (plus at most three VIOLATION lines each). Extra ids may be given.
+python3 -c "
+import json
+for c in json.load(open('/verif/MANIFEST.json'))['checks']: print(c['quick_cmd'])
+" > /tmp/runall.cmds
+for p in "$@"; do echo "/verif/bin/gvc check --property $p --tier quick" >> /tmp/runall.cmds; done
+while read -r cmd; do
+  sh -c "$cmd" 2>&1 | grep "^gvc: property\|^VIOLATION" | cut -c1-220 | awk '/^VIOLATION/{n++; if(n<=3) print; next} {print}'
+done < /tmp/runall.cmds
